@@ -260,15 +260,15 @@ func (v ReceiverValidator) validateParamsCombinations(
 	case definitions.PassedInBody:
 		if doesBodyParamAlreadyExists {
 			// Body is a special case, only one body parameter is allowed per route
-			errMsg = "Body parameter is invalid, only one body per route is allowed"
+			errMsg = fmt.Sprintf("Body parameter '%s' is invalid, only one body per route is allowed", newParam.Name)
 		} else if doesFormParamAlreadyExists {
 			// Form is an implementation of url encoded string in the body, thus it cannot be used if the body is already in use
-			errMsg = "Body parameter is invalid, using body is not allowed when a form is in use"
+			errMsg = fmt.Sprintf("Body parameter '%s' is invalid, using body is not allowed when a form is in use", newParam.Name)
 		}
 	case definitions.PassedInForm:
 		if doesBodyParamAlreadyExists {
 			// Form is an implementation of url encoded string in the body, thus it cannot be used if the body is already in use
-			errMsg = "Form parameter is invalid, using form is not allowed when a body is in use"
+			errMsg = fmt.Sprintf("Form parameter '%s' is invalid, using form is not allowed when a body is in use", newParam.Name)
 		}
 	}
 
